@@ -932,6 +932,8 @@ pub fn run_case(case: &Case, stats: &mut Stats) -> RunReport {
         ));
         stats.add("ticks.total", obs.ticks);
         stats.max("ticks.max_per_op", obs.ticks);
+        stats.max("bytes.sim_stdout_max", obs.stdout.len() as u64);
+        stats.max("bytes.sim_stderr_max", obs.stderr.len() as u64);
         seam_events += 1;
         let fired = obs.out_faults + obs.err_faults;
         for (f, n, fd) in [(out_fault, obs.out_faults, "stdout"), (err_fault, obs.err_faults, "stderr")] {
@@ -1015,6 +1017,11 @@ pub fn run_case(case: &Case, stats: &mut Stats) -> RunReport {
                 }
                 Ok(ro) => {
                     stats.bump("real.spawned");
+                    stats.max("bytes.real_stdout_max", ro.stdout.len() as u64);
+                    stats.max("bytes.real_stderr_max", ro.stderr.len() as u64);
+                    if ro.stdout.len() > 65536 || ro.stderr.len() > 65536 {
+                        stats.bump("probe.real_output_larger_than_a_pipe_buffer");
+                    }
                     if has_tty {
                         stats.bump("real.tty_child");
                     }
